@@ -796,3 +796,313 @@ Proof.
   exists s. split; [reflexivity|]. vm_compute in E. injection E as E. subst s.
   split; eexists; reflexivity.
 Qed.
+
+(* ------------------------------------------------------------------ time: the clean-up never removes a held file *)
+
+Record TInv (B : Z) (cfg : pid -> pconf) (ts : tstate) : Prop := mk_TInv {
+  tI : Inv true cfg (base ts);
+  tM : forall i, (mtime ts i <= now ts)%Z;
+  (* whoever has the lock file open opened it no later than its modification time *)
+  tK : forall q i, witness_pc (st_pc (ps (base ts) q)) = Some i -> (opened ts q <= mtime ts i)%Z;
+  (* the file at the path is open in a process that has not given up on it *)
+  tJ : forall i, path (base ts) 0 = Some i -> exists q, witness_pc (st_pc (ps (base ts) q)) = Some i;
+  tD : forall q a i, st_pc (ps (base ts) q) = Closing a i true -> path (base ts) 0 <> Some i;
+  tN : forall q k i, st_pc (ps (base ts) q) <> RmFailed k i;
+  (* expire_time of a running clean-up lies at least B before now *)
+  tT : forall p e, st_pc (ps (base ts) p) = CScan e \/ st_pc (ps (base ts) p) = CStat e -> (e <= now ts - B)%Z;
+  tU : forall p, st_pc (ps (base ts) p) <> CUnlink
+}.
+
+Lemma tinv_init B cfg : (0 <= B)%Z -> TInv B cfg tinit.
+Proof.
+  intros HB. constructor; cbn; intros; try discriminate; try lia.
+  - apply inv_init.
+  - destruct H; discriminate.
+Qed.
+
+Lemma tinv_tick B cfg ts d : (0 <= d)%Z -> TInv B cfg ts -> TInv B cfg (tick ts d).
+Proof.
+  intros Hd [I M K J D N T U]. constructor; cbn [tick base now mtime opened]; auto.
+  - intros i. specialize (M i). lia.
+  - intros p e H. specialize (T p e H). lia.
+Qed.
+
+Lemma tile_lock_user B cfg p : tile_locks B cfg -> is_clean (cfg p) = false ->
+  is_sem (cfg p) = false /\ removes (cfg p) = true /\ nslots (cfg p) = 1.
+Proof.
+  intros HT Hc. unfold is_clean, is_sem, removes, nslots in *. destruct (HT p) as [E|[E _]]; rewrite E in *;
+    [repeat split | discriminate].
+Qed.
+
+Lemma tile_cleaner B cfg p : tile_locks B cfg -> is_clean (cfg p) = true -> (B <= p_timeout (cfg p))%Z.
+Proof.
+  intros HT Hc. unfold is_clean in Hc. destruct (HT p) as [E|[E Hb]]; [rewrite E in Hc; discriminate | exact Hb].
+Qed.
+
+(* decompose a timed step into the cases of the underlying step *)
+Ltac tstep_inv HT H Hstep Hclean :=
+  unfold tstep in H;
+  destruct (reading_ok _ _) eqn:Hread; [|discriminate H];
+  match type of H with context[stepc ?chk ?cfg ?s ?p ?o] =>
+    destruct (stepc chk cfg s p o) as [[[s1 r1] e1]|] eqn:Hstep; [|discriminate H] end;
+  injection H as <-;
+  unfold stepc in Hstep;
+  match type of Hstep with context[is_clean (?cfg ?p)] => destruct (is_clean (cfg p)) eqn:Hclean end;
+  [ pose proof (tile_cleaner _ _ _ HT Hclean) as Hbound; clean_inv Hstep
+  | destruct (tile_lock_user _ _ _ HT Hclean) as (Hsem & Hrm & Hns); step_inv Hstep; try congruence ];
+  cbn [base now mtime opened touch_of] in *.
+
+Lemma tstep_not_unlink B cfg ts p o ts' : TInv B cfg ts -> tstep true cfg ts p o = Some ts' -> o <> OUnlink.
+Proof.
+  intros HI H ->. unfold tstep in H. cbn [reading_ok] in H.
+  destruct (stepc true cfg (base ts) p OUnlink) as [[[s1 r1] e1]|] eqn:Hstep; [|discriminate H].
+  unfold stepc in Hstep. destruct (is_clean (cfg p)).
+  - unfold step_clean in Hstep. destruct (st_pc (ps (base ts) p)) eqn:Hpc; try discriminate Hstep.
+    exact (tU _ _ _ HI p Hpc).
+  - unfold step in Hstep. destruct (st_pc (ps (base ts) p)); discriminate Hstep.
+Qed.
+
+Lemma tstep_base B cfg ts p o ts' : tile_locks B cfg -> TInv B cfg ts ->
+  tstep true cfg ts p o = Some ts' -> Inv true cfg (base ts').
+Proof.
+  intros HT HI H. pose proof (tstep_not_unlink _ _ _ _ _ _ HI H) as Hno.
+  unfold tstep in H. destruct (reading_ok ts o); [|discriminate H].
+  destruct (stepc true cfg (base ts) p o) as [[[s1 r1] e1]|] eqn:Hstep; [|discriminate H].
+  injection H as <-. cbn [base]. eapply inv_stepc; [left; reflexivity | exact (tI _ _ _ HI) | exact Hstep | exact Hno].
+Qed.
+
+Ltac zbrk :=
+  repeat match goal with
+  | H : context[Z.eqb ?a ?b] |- _ => destruct (Z.eqb_spec a b); subst
+  | H : context[Z.ltb ?a ?b] |- _ => destruct (Z.ltb_spec a b)
+  | |- context[Z.ltb ?a ?b] => destruct (Z.ltb_spec a b)
+  end.
+
+Ltac tdis :=
+  repeat match goal with
+  | H : _ \/ _ |- _ => destruct H
+  | H : CScan _ = CScan _ |- _ => injection H as H; try subst
+  | H : CStat _ = CStat _ |- _ => injection H as H; try subst
+  | H : Closing _ _ _ = Closing _ _ _ |- _ => injection H; clear H; intros; try subst
+  | H : RmFailed _ _ = RmFailed _ _ |- _ => injection H; clear H; intros; try subst
+  | H : reading_ok _ (OTime _) = true |- _ => cbn [reading_ok] in H; apply Z.eqb_eq in H; try subst
+  | Hx : path ?s 0 = _ |- context[path ?s 0] => rewrite Hx
+  end.
+
+(* a FileLock has one lock file: slot 0 *)
+Ltac slot0 :=
+  try match goal with
+  | G : forall a0, Some ?a = Some a0 -> a_k a0 < nslots _, Hn : nslots _ = 1 |- _ =>
+    let X := fresh in let E := fresh "Eslot" in
+    pose proof (G _ eq_refl) as X; rewrite Hn in X; assert (E : a_k a = 0) by lia; rewrite E in *
+  end.
+
+Ltac selfB := try match goal with Bp : forall k i, Some _ = Some (k, i) -> path _ k = Some i |- _ => note (Bp _ _ eq_refl) end.
+
+(* the age guard cannot fire: the file at the path is open in a process that opened it at most B ago *)
+Ltac guard_case J K T Hty :=
+  match goal with
+  | Hp : st_pc (ps (base ?ts) ?p) = CStat ?ex, Hpath : path (base ?ts) 0 = Some ?i,
+    Hr : reading_ok ?ts (OMtime (Some ?z)) = true, Hlt : (?z <? ?ex)%Z = true |- _ =>
+    exfalso; cbn [reading_ok] in Hr; rewrite Hpath in Hr; apply Z.eqb_eq in Hr; apply Z.ltb_lt in Hlt;
+    let w := fresh "w" in let Hw := fresh "Hw" in
+    first [destruct (J i Hpath) as [w Hw] | destruct (J _ eq_refl) as [w Hw]];
+    pose proof (K w _ Hw); pose proof (Hty w _ Hw); pose proof (T p ex (or_intror Hp)); lia
+  end.
+
+Lemma tstep_univ B cfg ts p o ts' : tile_locks B cfg -> TInv B cfg ts -> timely B ts ->
+  tstep true cfg ts p o = Some ts' -> 
+  (forall i, (mtime ts' i <= now ts')%Z) /\
+  (forall q a i, st_pc (ps (base ts') q) = Closing a i true -> path (base ts') 0 <> Some i) /\
+  (forall q k i, st_pc (ps (base ts') q) <> RmFailed k i) /\
+  (forall p e, st_pc (ps (base ts') p) = CScan e \/ st_pc (ps (base ts') p) = CStat e -> (e <= now ts' - B)%Z) /\
+  (forall p, st_pc (ps (base ts') p) <> CUnlink).
+Proof.
+  intros HT HI Hty H. destruct HI as [I M K J D N T U].
+  pose proof (N p) as Np. pose proof (T p) as Tp. pose proof (U p) as Up. pose proof (D p) as Dp.
+  pose proof (iB _ _ _ I p) as Bp. pose proof (iG _ _ _ I p) as Gp.
+  tstep_inv HT H Hstep Hclean.
+  all: try guard_case J K T Hty.
+  all: rw; red_state; selfB; slot0.
+  all: (split; [|split; [|split; [|split]]]); intros; red_state; brk; red_state; rw; red_state.
+  all: try solve [eauto | discriminate | congruence | lia].
+  all: tdis; try rewrite Hsem in *; red_state; brk.
+  all: try solve [eauto | discriminate | congruence | lia | apply Z.le_refl].
+  match goal with Hc : st_pc (ps (base ts) ?q) = Closing _ ?i true |- _ =>
+    let X := fresh in intro X; injection X as X; subst i;
+    assert (Hh : holds_pc (st_pc (ps (base ts) q)) = Some (next (base ts))) by (rewrite Hc; reflexivity);
+    pose proof (fE_pc I _ _ Hh); lia end.
+Qed.
+
+(* whoever has the file open opened it no later than its modification time *)
+Lemma tstep_K B cfg ts p o ts' : tile_locks B cfg -> TInv B cfg ts ->
+  tstep true cfg ts p o = Some ts' ->
+  forall q i, witness_pc (st_pc (ps (base ts') q)) = Some i -> (opened ts' q <= mtime ts' i)%Z.
+Proof.
+  intros HT HI H. destruct HI as [I M K J D N T U].
+  pose proof (K p) as Kp.
+  tstep_inv HT H Hstep Hclean.
+  all: rw; red_state.
+  all: intros q j Hw; red_state; brk; red_state; rw; red_state.
+  all: try rewrite Hsem in *; red_state; cbn [witness_pc inside_pc] in *.
+  all: try discriminate Hw.
+  all: try (injection Hw as Hw; try subst).
+  all: unfold upd; brk.
+  all: try solve [eauto | lia | apply Z.le_refl].
+  all: try (match goal with |- (_ <= now _)%Z => eapply Z.le_trans; [|apply M]; eauto end).
+Qed.
+
+Lemma holder_witness c i : holds_pc c = Some i ->
+  witness_pc c = Some i \/ (exists a, c = Closing a i true) \/ (exists k, c = RmFailed k i).
+Proof.
+  destruct c; cbn; intros H; try discriminate H; try (injection H as <-); auto.
+  - destruct held; [injection H as <-|discriminate H]. right. left. eexists. reflexivity.
+  - right. right. eexists. reflexivity.
+Qed.
+
+(* the file at the path is open in a process that has not given up on it *)
+Lemma tstep_J B cfg ts p o ts' : tile_locks B cfg -> TInv B cfg ts ->
+  tstep true cfg ts p o = Some ts' ->
+  forall i, path (base ts') 0 = Some i -> exists q, witness_pc (st_pc (ps (base ts') q)) = Some i.
+Proof.
+  intros HT HI H. destruct HI as [I M K J D N T U].
+  pose proof (iB _ _ _ I p) as Bp. pose proof (iG _ _ _ I p) as Gp. pose proof (D p) as Dp. pose proof (N p) as Np.
+  pose proof (fA' I) as HA'. pose proof (iZ _ _ _ I) as HZ. pose proof (iG' _ _ _ I p) as G'p.
+  tstep_inv HT H Hstep Hclean.
+  all: rw; red_state; selfB; slot0.
+  all: intros j Hj; red_state; brk.
+  all: try match goal with Hx : path ?s 0 = _, Hj : path ?s 0 = Some _ |- _ => rewrite Hx in Hj end.
+  all: try discriminate Hj.
+  (* the process that moved is (still, or now) a witness of the file at the path *)
+  all: try (exists p; red_state; rewrite Nat.eqb_refl; cbn [st_pc witness_pc]; congruence).
+  (* otherwise an old witness other than p stays one *)
+  all: try (first [destruct (J _ Hj) as [w Hw] | destruct (J j ltac:(congruence)) as [w Hw]]; destruct (Nat.eq_dec w p) as [->|Hn];
+            [ rewrite Hpc in Hw; cbn [witness_pc] in Hw; try discriminate Hw
+            | exists w; red_state; destruct (Nat.eqb_spec w p); [contradiction | exact Hw] ]).
+  all: try (exfalso; congruence).
+  all: try (exists p; red_state; rewrite Nat.eqb_refl; cbn [st_pc witness_pc]; congruence).
+  all: try (exfalso; match goal with G : forall k0, Some ?k = Some k0 -> k0 < nslots _ |- _ =>
+                      pose proof (G _ eq_refl); rewrite Hns in *; lia end).
+  (* flock refused: the process that holds the flock is a witness *)
+  all: assert (Eij : i = j) by congruence; subst j.
+  all: destruct (HA' _ _ Heqo) as [X|X]; [|exfalso; exact (HZ _ _ 0 X Hj)].
+  all: destruct (Nat.eqb_spec p0 p) as [->|Hn]; [rewrite Hpc in X; discriminate X|].
+  all: destruct (holder_witness _ _ X) as [Y|[[a' Y]|[k' Y]]];
+       [ exists p0; red_state; destruct (Nat.eqb_spec p0 p); [contradiction | exact Y]
+       | exfalso; exact (D _ _ _ Y Hj) | exfalso; exact (N _ _ _ Y) ].
+Qed.
+
+Lemma tinv_step B cfg ts p o ts' : tile_locks B cfg -> TInv B cfg ts -> timely B ts ->
+  tstep true cfg ts p o = Some ts' -> TInv B cfg ts'.
+Proof.
+  intros HT HI Hty H.
+  destruct (tstep_univ _ _ _ _ _ _ HT HI Hty H) as (M & D & N & T & U).
+  constructor; auto.
+  - eapply tstep_base; eassumption.
+  - eapply tstep_K; eassumption.
+  - eapply tstep_J; eassumption.
+Qed.
+
+Lemma treach_timely B chk cfg ts : treach B chk cfg ts -> timely B ts.
+Proof.
+  intros H. destruct H; auto. intros q i Hw. discriminate Hw.
+Qed.
+
+Lemma tinv_reach B cfg ts : (0 <= B)%Z -> tile_locks B cfg -> treach B true cfg ts -> TInv B cfg ts.
+Proof.
+  intros HB HT H. induction H.
+  - apply tinv_init. exact HB.
+  - apply tinv_tick; assumption.
+  - eapply tinv_step; [exact HT | exact IHtreach | eapply treach_timely; eassumption | eassumption].
+Qed.
+
+(* the clean-up never gets to its unlink *)
+Lemma cleanup_never_unlinks_lemma : forall B cfg ts,
+  (0 <= B)%Z -> tile_locks B cfg -> treach B true cfg ts ->
+  (forall p, st_pc (ps (base ts) p) <> CUnlink) /\ (forall p, tstep true cfg ts p OUnlink = None).
+Proof.
+  intros B cfg ts HB HT H. pose proof (tinv_reach _ _ _ HB HT H) as HI. split; [exact (tU _ _ _ HI)|].
+  intros p. destruct (tstep true cfg ts p OUnlink) as [ts'|] eqn:E; [|reflexivity].
+  exfalso. exact (tstep_not_unlink _ _ _ _ _ _ HI E eq_refl).
+Qed.
+
+Lemma clean_step_path cfg s p o s' r e :
+  step_clean cfg s p o = Some (s', r, e) -> o <> OUnlink -> path s' = path s.
+Proof.
+  intros H Hno. clean_inv H; try reflexivity. exfalso. apply Hno. reflexivity.
+Qed.
+
+(* the name of a lock file disappears only through the unlock of the process that is inside through it *)
+Lemma held_file_keeps_name_lemma : forall B cfg ts p o ts' i,
+  (0 <= B)%Z -> tile_locks B cfg -> treach B true cfg ts ->
+  tstep true cfg ts p o = Some ts' -> path (base ts) 0 = Some i ->
+  path (base ts') 0 = Some i \/ (o = ORemove /\ st_pc (ps (base ts) p) = Inside 0 i).
+Proof.
+  intros B cfg ts p o ts' i HB HT Hr H Hi.
+  pose proof (tinv_reach _ _ _ HB HT Hr) as HI. pose proof (tstep_not_unlink _ _ _ _ _ _ HI H) as Hno.
+  unfold tstep in H. destruct (reading_ok ts o); [|discriminate H].
+  destruct (stepc true cfg (base ts) p o) as [[[s1 r1] e1]|] eqn:Hs; [|discriminate H].
+  injection H as <-. cbn [base]. unfold stepc in Hs. destruct (is_clean (cfg p)).
+  - left. rewrite (clean_step_path _ _ _ _ _ _ _ Hs Hno). exact Hi.
+  - exact (step_path_keep _ _ _ _ _ _ _ _ _ _ (tI _ _ _ HI) Hs Hi).
+Qed.
+
+(* and the lock theorems hold along timely runs with clean-up processes *)
+Lemma mutex_timed_lemma : forall B cfg ts p q k,
+  (0 <= B)%Z -> tile_locks B cfg -> treach B true cfg ts ->
+  inside_at (base ts) p k -> inside_at (base ts) q k -> p = q.
+Proof.
+  intros B cfg ts p q k HB HT Hr. apply (mutex_inv true cfg). exact (tI _ _ _ (tinv_reach _ _ _ HB HT Hr)).
+Qed.
+
+Lemma treach_trun B chk cfg : forall l ts ts',
+  treach B chk cfg ts -> all_timely B chk cfg ts l -> trun chk cfg ts l = Some ts' -> treach B chk cfg ts'.
+Proof.
+  induction l as [|x l IH]; intros ts ts' Hr Ht Hrun; cbn [trun all_timely] in *.
+  - injection Hrun as <-. exact Hr.
+  - destruct (tnext chk cfg ts x) as [ts1|] eqn:E; [|contradiction]. destruct Ht as [Ht1 Ht].
+    eapply IH; [|exact Ht|exact Hrun].
+    destruct x as [d|p o]; cbn [tnext] in E.
+    + destruct (Z.leb_spec 0 d); [|discriminate E]. injection E as <-. apply tr_tick; assumption.
+    + eapply tr_act; eassumption.
+Qed.
+
+(* non-vacuity: a holder, a waiter whose attempt fails (truncating the file at clock 1), 4 s later a clean-up pass
+   with max_lock_time 10 that reads modification time 1, keeps the file; every state is timely for B = 10 *)
+Definition timed_schedule : list tlabel :=
+  [ LAct 0 (OTime 0); LAct 0 OOpen; LAct 0 OFlock; LAct 0 OStat; LTick 1;
+    LAct 1 (OTime 1); LAct 1 OOpen; LAct 1 OFlock; LAct 1 OClose; LTick 4;
+    LAct 2 (OTime 5); LAct 2 OList; LAct 2 (OMtime (Some 1%Z)) ].
+
+Ltac timely_tac :=
+  let q := fresh "q" in let i := fresh "i" in let H := fresh "H" in
+  intros q i H; destruct q as [|[|[|q]]]; vm_compute in H; try discriminate H; vm_compute; discriminate.
+
+Example timed_run_nonvacuous :
+  tile_locks 10 clean_cfg /\
+  exists ts, trun true clean_cfg tinit timed_schedule = Some ts /\ treach 10 true clean_cfg ts /\
+             inside (base ts) 0 /\ st_pc (ps (base ts) 2) = Idle /\ path (base ts) 0 = Some 0 /\ now ts = 5%Z.
+Proof.
+  split.
+  - intros p. destruct p as [|[|[|p]]]; cbn; auto. right. split; [reflexivity | lia].
+  - destruct (trun true clean_cfg tinit timed_schedule) as [ts|] eqn:E; [|vm_compute in E; discriminate].
+    exists ts. split; [reflexivity|]. split.
+    + eapply treach_trun; [apply tr_init | | exact E].
+      vm_compute.
+      repeat (split; [timely_tac|]). exact I.
+    + vm_compute in E. injection E as E. subst ts. split; [exists 0, 0; reflexivity|]. repeat split.
+Qed.
+
+(* the timing assumption cannot be dropped: the documented override, with the clock and the modification time
+   supplied by the timed layer *)
+Definition timed_override_schedule : list tlabel :=
+  [ LAct 0 (OTime 0); LAct 0 OOpen; LAct 0 OFlock; LAct 0 OStat; LTick 100;
+    LAct 2 (OTime 100); LAct 2 OList; LAct 2 (OMtime (Some 0%Z)); LAct 2 OUnlink;
+    LAct 1 (OTime 100); LAct 1 OOpen; LAct 1 OFlock; LAct 1 OStat ].
+Lemma timed_override_two_inside :
+  exists ts, trun true clean_cfg tinit timed_override_schedule = Some ts /\
+             inside_at (base ts) 0 0 /\ inside_at (base ts) 1 0.
+Proof.
+  destruct (trun true clean_cfg tinit timed_override_schedule) as [ts|] eqn:E; [|vm_compute in E; discriminate].
+  exists ts. split; [reflexivity|]. vm_compute in E. injection E as E. subst ts. split; eexists; reflexivity.
+Qed.
